@@ -168,4 +168,58 @@ theorem run_inv (s : Sys) (hI : SysInv s) (ops : List SOp) (hv : ValidRun s ops)
   | nil => exact hI
   | cons op ops ih => exact ih _ (sys_step_inv hI op hv.1) hv.2
 
+/-- the run, instrumented with "every allocator answer so far satisfied the assumptions" -/
+def istep (p : Sys × Prop) (op : SOp) : Sys × Prop := (p.1.next op, p.2 ∧ SOpOK p.1 op)
+
+theorem istep_run (s : Sys) (P : Prop) (ops : List SOp) :
+    (runOps istep (s, P) ops).1 = runOps Sys.next s ops ∧ ((runOps istep (s, P) ops).2 ↔ (P ∧ ValidRun s ops)) := by
+  induction ops generalizing s P with
+  | nil => simp [runOps, ValidRun]
+  | cons op ops ih =>
+    obtain ⟨h1, h2⟩ := ih (s.next op) (P ∧ SOpOK s op)
+    refine ⟨h1, ?_⟩
+    simp only [runOps, istep, ValidRun] at h2 ⊢
+    rw [h2]; exact and_assoc
+
+/-! ### a decidable (stronger) form of the assumptions, for concrete non-vacuity witnesses -/
+
+def SOpOKd (s : Sys) : SOp → Prop
+  | .on r (.alloc bytes align e) => (∃ k ∈ List.range 64, align = 2 ^ k) ∧ AllocEnvOK s.held (s.get r) bytes align e
+  | .on r (.reg _ e) => (s.get r).dtRoom = false → AllocEnvOK s.held (s.get r) sizeofDtArray alignofDtArray e
+  | .on _ _ => True
+  | .move _ _ => True
+  | .renew _ _ ps _ => (∃ k ∈ List.range 64, ps = 2 ^ k) ∧ sizeofPageArray ≤ ps
+
+instance (s : Sys) (op : SOp) : Decidable (SOpOKd s op) := by
+  cases op with
+  | on r op => cases op <;> (simp only [SOpOKd]; infer_instance)
+  | move a b => simp only [SOpOKd]; infer_instance
+  | renew r pa ps up => simp only [SOpOKd]; infer_instance
+
+theorem SOpOKd.sound {s : Sys} {op : SOp} (h : SOpOKd s op) : SOpOK s op := by
+  cases op with
+  | on r op =>
+    cases op with
+    | alloc bytes align e => obtain ⟨⟨k, _, hk⟩, h2⟩ := h; exact ⟨⟨k, hk⟩, h2⟩
+    | reg tag e => exact h
+    | contains p => trivial
+    | release => trivial
+  | move a b => trivial
+  | renew r pa ps up => obtain ⟨⟨k, _, hk⟩, h2⟩ := h; exact ⟨⟨k, hk⟩, h2⟩
+
+def ValidRunD : Sys → List SOp → Prop
+  | _, [] => True
+  | s, op :: ops => SOpOKd s op ∧ ValidRunD (s.next op) ops
+
+instance : (s : Sys) → (ops : List SOp) → Decidable (ValidRunD s ops)
+  | _, [] => by unfold ValidRunD; infer_instance
+  | s, op :: ops => by
+    unfold ValidRunD
+    have := instDecidableValidRunD (s.next op) ops
+    infer_instance
+
+theorem ValidRunD.sound : ∀ {s : Sys} {ops : List SOp}, ValidRunD s ops → ValidRun s ops
+  | _, [], _ => trivial
+  | _, _ :: _, h => ⟨h.1.sound, ValidRunD.sound h.2⟩
+
 end Babylon.Arena
